@@ -7,3 +7,78 @@ try:
     REPLAYERS.update(getattr(_ring, "REPLAYERS", {}))
 except ImportError:
     _ring = None
+
+import itertools
+import numpy, z3
+from pyvc import sym, barr, modeb, loopcut
+from pyvc.sym import cur, _t
+
+SORT = "pybrops/opt/algo/SortingSubsetOptimizationAlgorithm.py"
+R = lambda x: (z3.ToReal(_t(x)) if _t(x).sort() == z3.IntSort() else _t(x))
+
+
+@unit(P, "B[sorting optimiser: distinct members, k smallest, truthful values, brute-force optimum of separable objectives]", "B",
+      bounded=True, targets=[SORT + ":SortingSubsetOptimizationAlgorithm.minimize"],
+      note="bounded(shape): candidate sets of <= 4 (thorough 5) labels, every subset size; single-member objective values symbolic reals (ties included)")
+def u_b_sorting(ctx):
+    sols = []
+
+    class Soln:
+        def __init__(self, **kw):
+            self.kw = kw
+            sols.append(self)
+    f = loopcut.Extracted(SORT + ":SortingSubsetOptimizationAlgorithm.minimize", overrides={
+        "check_is_SubsetProblem": lambda *a: None, "check_SubsetProblem_is_single_objective": lambda *a: None,
+        "SubsetSolution": Soln})
+
+    def body(e, shape, tag):
+        n, k = shape
+        labels = numpy.array([10 + 3 * i for i in range(n)])
+        w = barr.fresh("w", (n,), "float64")
+        wt = {int(l): w[i] for i, l in enumerate(labels)}
+        calls = []
+
+        class Prob:
+            decn_space = labels.copy()
+            ndecn = k
+            decn_space_lower = None
+            decn_space_upper = None
+            nobj, obj_wt, nineqcv, ineqcv_wt, neqcv, eqcv_wt = 1, numpy.array([1.0]), 0, numpy.array([]), 0, numpy.array([])
+
+            def evalfn(self, x, *a, **kw):
+                calls.append([int(v) for v in x])
+                tot = 0
+                for v in x:
+                    tot = tot + wt[int(v)]
+                return barr.mk(numpy.array([tot], dtype=object), "float64"), numpy.zeros(0), numpy.zeros(0)
+        prob = Prob()
+        del sols[:]
+        out = f(object(), prob, None)
+        kw = out.kw
+        decn = [int(v) for v in numpy.asarray(kw["soln_decn"]).reshape(-1)]
+        e.prove(tag + ":one-solution-of-requested-size", len(decn) == k and kw["nsoln"] == 1)
+        e.prove(tag + ":distinct-members-of-the-candidate-set", len(set(decn)) == k and all(v in wt for v in decn))
+        rest = [int(l) for l in labels if int(l) not in decn]
+        e.prove(tag + ":chosen-are-the-k-smallest-by-single-member-objective",
+                z3.And(*[R(wt[i]) <= R(wt[j]) for i in decn for j in rest]) if rest and decn else True)
+        obj = numpy.asarray(kw["soln_obj"]).reshape(-1)[0]
+        e.prove(tag + ":reported-objective-equals-fresh-evaluation", R(obj) == sum((R(wt[i]) for i in decn), z3.RealVal(0)))
+        e.prove(tag + ":re-evaluates-the-returned-decision", calls[-1] == decn)
+        best = z3.And(*[sum((R(wt[i]) for i in decn), z3.RealVal(0)) <= sum((R(wt[int(j)]) for j in sub), z3.RealVal(0))
+                        for sub in itertools.combinations(labels, k)])
+        e.prove(tag + ":attains-the-brute-force-optimum-of-the-separable-objective", best)
+        e.prove(tag + ":problem-not-modified", numpy.array_equal(prob.decn_space, labels) and prob.ndecn == k)
+        return "ok"
+    nmax = 4 if ctx.tier == "quick" else 5
+    shapes = [(n, k) for n in range(1, nmax + 1) for k in range(1, n + 1)]
+    modeb.run_shapes(ctx, "sorting", shapes, body, max_paths=20000)
+
+
+@unit(P, "L[integer variation operators: rounding a real in [xl,xu] with integer bounds stays in [xl,xu]]", "L", targets=[])
+def u_l_round(ctx):
+    xl, xu, r = z3.Ints("xl xu r")
+    y = z3.Real("y")
+    ctx.prove("round: |r - y| <= 1/2, xl <= y <= xu, integer bounds  =>  xl <= r <= xu",
+              [xl <= xu, z3.ToReal(xl) <= y, y <= z3.ToReal(xu), z3.ToReal(r) - y <= z3.RealVal("1/2"), y - z3.ToReal(r) <= z3.RealVal("1/2")],
+              z3.And(xl <= r, r <= xu))
+    ctx.assume_note("bounds representable exactly in binary64 (|x| < 2^53); beyond that see known finding C06-F49")
